@@ -326,7 +326,8 @@ func TestWire(t *testing.T) {
 					} else {
 						// a second member
 						for _, f := range st.Fields {
-							if _, has := v.F[f.ID]; !has && f.Type.Kind != ref.Struct {
+							// (a member holding its declared default cannot be told from an unset one)
+							if _, has := v.F[f.ID]; !has && f.Type.Kind != ref.Struct && !f.HasDef {
 								v.F[f.ID] = ref.Zero(f.Type)
 								break
 							}
